@@ -175,7 +175,9 @@ def plan_l2(tier, baseline=None):
             # for all registers / memory shapes with bounded values
             # (the divider circuit does not close even with fixed registers: the all-values arithmetic half of
             #  DIV/IDIV is attempted in the thorough tier only and reported as undecided when it times out)
-            arith = [] if (t["mnemonic"] in ("Div", "Idiv") and tier == "quick") else [("RegFixed", False)]
+            # (measured in the thorough run of 2026-09-26: f_Div_rm32/rm64__regf, f_Idiv_rm16/rm32__regf all hit the 3000 s limit,
+            #  so the all-values half of DIV/IDIV is not attempted in any tier - 50 min per harness for nothing)
+            arith = [] if t["mnemonic"] in ("Div", "Idiv") else [("RegFixed", False)]
             shapes = arith + [(x, True) for x in shapes]
         else:
             shapes = [(x, False) for x in shapes]
